@@ -3,6 +3,7 @@ package symgo
 import (
 	"fmt"
 	"go/token"
+	"unicode/utf8"
 )
 
 const tokLSS = token.LSS
@@ -135,10 +136,24 @@ func registerIntrinsics(in *Interp) {
 		R(p+".vand", func(in *Interp, a []Value, s *cinstr) Value { return in.andV(a[0], a[1]) })
 		R(p+".vor", func(in *Interp, a []Value, s *cinstr) Value { return in.orV(a[0], a[1]) })
 		R(p+".vimplies", func(in *Interp, a []Value, s *cinstr) Value { return in.orV(in.notV(a[0]), a[1]) })
+		// vutf8valid(b []byte) bool: UTF-8 validity as a single Bool term (no forking)
+		R(p+".vutf8valid", func(in *Interp, a []Value, s *cinstr) Value { return in.utf8ValidTerm(sliceCells(a[0])) })
+		R(p+".vfreezeBytes", func(in *Interp, a []Value, s *cinstr) Value {
+			if a[0].K == KSlice {
+				a[0].R.(*Obj).Flags |= FFrozen
+			}
+			return Value{}
+		})
+		R(p+".vunfreezeBytes", func(in *Interp, a []Value, s *cinstr) Value {
+			if a[0].K == KSlice {
+				a[0].R.(*Obj).Flags &^= FFrozen
+			}
+			return Value{}
+		})
 		R(p+".vaddrOf", func(in *Interp, a []Value, s *cinstr) Value {
 			// identity of the first cell of a slice: (object id << 24) + offset; 0 for nil/empty
 			v := a[0]
-			if v.K != KSlice {
+			if v.K != KSlice || v.N == 0 {
 				return intV(0, 64)
 			}
 			return intV(v.R.(*Obj).ID<<24+v.C, 64)
@@ -294,4 +309,55 @@ func registerIntrinsics(in *Interp) {
 		return Value{K: KTuple, R: []Value{intV(0, 64), {}}}
 	})
 	_ = fmt.Sprint
+}
+
+// utf8ValidTerm builds "cells is valid UTF-8" by dynamic programming over prefix
+// validity: ok[i] = OR_k ok[i-k] AND seq_k(cells[i-k:i]).
+func (in *Interp) utf8ValidTerm(c []Value) Value {
+	tt := in.TT
+	n := len(c)
+	sh := make([]byte, n)
+	sym := false
+	for i := range c {
+		sh[i] = byte(c[i].C)
+		if c[i].T != nil {
+			sym = true
+		}
+	}
+	res := utf8.Valid(sh)
+	if !sym {
+		return boolV(res)
+	}
+	b := make([]*Term, n)
+	for i := range c {
+		b[i] = in.termOf(c[i])
+	}
+	k8 := func(v uint64) *Term { return tt.Const(v, 8) }
+	rng := func(x *Term, lo, hi uint64) *Term {
+		return tt.And(tt.Cmp(OpUle, k8(lo), x), tt.Cmp(OpUle, x, k8(hi)))
+	}
+	cont := func(x *Term) *Term { return rng(x, 0x80, 0xBF) }
+	ok := make([]*Term, n+1)
+	ok[0] = tt.Bool(true)
+	for i := 1; i <= n; i++ {
+		t := tt.And(ok[i-1], tt.Cmp(OpUlt, b[i-1], k8(0x80)))
+		if i >= 2 {
+			a, x := b[i-2], b[i-1]
+			t = tt.Or(t, tt.And(ok[i-2], tt.And(rng(a, 0xC2, 0xDF), cont(x))))
+		}
+		if i >= 3 {
+			a, x, y := b[i-3], b[i-2], b[i-1]
+			lead := tt.Or(tt.Or(tt.And(tt.Cmp(OpEq, a, k8(0xE0)), rng(x, 0xA0, 0xBF)), tt.And(rng(a, 0xE1, 0xEC), cont(x))),
+				tt.Or(tt.And(tt.Cmp(OpEq, a, k8(0xED)), rng(x, 0x80, 0x9F)), tt.And(rng(a, 0xEE, 0xEF), cont(x))))
+			t = tt.Or(t, tt.And(ok[i-3], tt.And(lead, cont(y))))
+		}
+		if i >= 4 {
+			a, x, y, z := b[i-4], b[i-3], b[i-2], b[i-1]
+			lead := tt.Or(tt.Or(tt.And(tt.Cmp(OpEq, a, k8(0xF0)), rng(x, 0x90, 0xBF)), tt.And(rng(a, 0xF1, 0xF3), cont(x))),
+				tt.And(tt.Cmp(OpEq, a, k8(0xF4)), rng(x, 0x80, 0x8F)))
+			t = tt.Or(t, tt.And(ok[i-4], tt.And(lead, tt.And(cont(y), cont(z)))))
+		}
+		ok[i] = t
+	}
+	return mkBool(res, ok[n])
 }
